@@ -783,6 +783,8 @@ def item_of(value, i):
         return value[1][i]
     if isinstance(value, tuple) and value and value[0] == "phi":
         return mkphi(value[1], item_of(value[2], i), item_of(value[3], i))
+    if isinstance(value, tuple) and len(value) == 4 and value[0] == "call" and value[1] == "divmod" and len(value[2]) == 2 and i in (0, 1):
+        return ("binop", "//" if i == 0 else "%", (value[2][0], value[2][1]))      # divmod(a, b) == (a // b, a % b)
     return ("item", value, i)
 
 
